@@ -297,6 +297,7 @@ pub fn c02(tier: &str) -> ! {
         check_directory: false,
         prefix: "C02",
         cross_cfg: false,
+        atomicity_only: false,
     };
     let all_cfgs = ["T300", "T300n", "M2", "M2n"];
     if t {
@@ -352,6 +353,7 @@ pub fn c16(tier: &str) -> ! {
         check_directory: false,
         prefix: "C16",
         cross_cfg: false,
+        atomicity_only: false,
     };
     let all_cfgs = ["T300", "T300n", "M2", "M2n"];
     if t {
